@@ -67,6 +67,18 @@ def run(ctx):
                 rs.unrec("%s: %s" % (r["shape"], r["detail"][:160]))
         ctx.floor(rs, 100)
 
+    if ctx.want("R8"):
+        rs = ctx.rule("R8", "a human-readable parser object that has read another formula (over symbols spelled like keywords) reads the next one as a fresh parser does")
+        from . import text_deep as td
+        for tag, kind, detail in td.hr_reuse_results(repo, ctx.tier):
+            if kind == "valid":
+                rs.ok({"case": tag, "result": detail})
+            elif kind == "invalid":
+                ctx.finding(rs, "hr-reuse|%s" % tag, "%s: %s" % (tag, detail), "pysmt/parsing.py")
+            else:
+                rs.unrec("%s: %s" % (tag, detail[:160]))
+        ctx.floor(rs, 5)
+
     if ctx.want("R7"):
         rs = ctx.rule("R7", "scripts re-serialise to text pySMT reads as an equivalent command list")
         from . import text_deep as td
